@@ -36,7 +36,7 @@ META = {
         technique="stateful property-based testing (rapid), conservation invariant at quiescent points, known-finding classifier",
     ),
     "C03": dict(
-        level_text="Generated histories with replay operators; after every operation the uniqueness of transaction and vertex hashes over live+checkpoint and the exactness of the transaction index are recomputed from the snapshot.",
+        level_text="Generated histories with replay operators; after every operation the uniqueness of transaction and vertex hashes over live+checkpoint and the exactness of the transaction index are recomputed from the snapshot; plus a sync clause: a peer's stream in which one transaction is sealed by two distinct vertices, loaded by a fresh node that must not go into service holding both.",
         design_ref="DESIGN.md §4 C03",
         level_note="Concurrent duplicates are sampled, not enumerated: 3 parallel deliveries of one vertex, proposal batches, and one fresh transaction offered at once as two differently sealed vertices and/or as 2-3 bare proposals.",
         technique="stateful property-based testing (rapid) with duplicate/replay operators, snapshot invariants",
@@ -60,7 +60,7 @@ META = {
         technique="stateful property-based testing (rapid), snapshot scan invariant",
     ),
     "C17": dict(
-        level_text="Sequential call sequences are model-checked step by step against a map (full shrinking, fresh cache per case); concurrent batches on shared addresses are compared with {saves} - {removals} at quiescence over many rounds and GOMAXPROCS settings.",
+        level_text="Sequential call sequences (save, re-save, remove, read, expiry of single entries through a guarded hook, balance entries of the same cache) are model-checked step by step against a map (full shrinking, fresh cache per case); concurrent batches on shared addresses are compared with {saves} - {removals} at quiescence over many rounds and GOMAXPROCS settings.",
         design_ref="DESIGN.md §4 C17",
         level_note="Eviction and the 5-minute expiry are out of reach (bigcache reads the wall clock). Concurrent clause is sampling; it includes several callers saving the SAME transaction and removals racing with a re-save. Sequences also contain saves/removals of cached balances on the same cache object with the key strings the notary can be made to pass.",
         technique="stateful model-based property testing (rapid) + randomized concurrent batches against a map model",
@@ -72,7 +72,7 @@ META = {
         technique="property-based testing: round-trip oracle over boundary-product enumeration + rapid random fill",
     ),
     "C13": dict(
-        level_text="A long-lived target node taken through 3-9 rounds of child-before-parent fans and chains (up to 495 parked at once, > 500 retries over its lifetime), all delivery permutations of three 4/5-vertex segment shapes plus random schedules (2-20 vertex segments with diamonds and two-depth parents, duplicates, retry steps, local proposals, invalid vertices); the final target ledger must contain the whole valid history with its declared edges, nothing twice, empty buffer.",
+        level_text="A retry-bound clause (a vertex whose parent never arrives survives the documented 25 failed retries and is gone after 75, read from the buffer's own counter); a long-lived target node taken through 3-9 rounds of child-before-parent fans and chains (up to 495 parked at once, > 500 retries over its lifetime), all delivery permutations of three 4/5-vertex segment shapes plus random schedules (2-20 vertex segments with diamonds and two-depth parents, duplicates, retry steps, local proposals, invalid vertices); the final target ledger must contain the whole valid history with its declared edges, nothing twice, empty buffer.",
         design_ref="DESIGN.md §4 C13",
         level_note="The premise (V is valid) is established per case by a reference node fed parents-first; cases where it rejects are discarded and counted. Retry goes through the hook calling the real admission path.",
         technique="property-based testing: schedule/permutation enumeration + rapid schedules, differential against parents-first delivery",
